@@ -13,7 +13,8 @@ A reachable state is the result of *any* label list from the initial state: all 
 partitions into `write` calls (empty ones, calls longer than the chunk size or than the remaining
 fixed size), flushes, shutdowns at any point and repeated, reads with any buffer size (also zero)
 and any slicing of the received messages, any interleaving of the two halves, drops of either
-half at any moment, and the faults of the environment (connection cut with any number of
+half at any moment, the sender shipped to another endpoint in mid-stream (with or without a chunk
+in flight), and the faults of the environment (connection cut with any number of
 messages and the size announcement lost in transit, a data port that fails cleanly, a sender
 port that learns late that its peer is gone).  `accepted` is the concatenation of the accepted
 part of every write, `received` the concatenation of the results of all successful reads,
@@ -79,6 +80,12 @@ theorem step_ghost {cfg : Cfg} {s s' : State} {l : Label} {o : Out} (hs : stepOu
     simp only [stepOut] at hs
     split at hs
     · simp only [Option.some.injEq, Prod.mk.injEq] at hs; obtain ⟨rfl, rfl⟩ := hs; simp [readOf, writtenOf, eofOf]
+    · cases hs
+  | moveTx =>
+    simp only [stepOut] at hs
+    split at hs
+    · split at hs <;>
+        (simp only [Option.some.injEq, Prod.mk.injEq] at hs; obtain ⟨rfl, rfl⟩ := hs; simp [readOf, writtenOf, eofOf])
     · cases hs
   | cut | sever =>
     simp only [stepOut] at hs
@@ -630,6 +637,14 @@ example : ((outputs exS (init exS) (runS ++ [.read 3 0, .dropTx, .cut, .read 3 0
     [.data [], .none, .none, .data []] := by decide
 example : ((outputs exS (init exS) [.write [1, 2], .flush, .dropTx, .read 9 0, .read 9 0, .read 9 0]).map (·.2)) =
     [.wrote 2, .done, .none, .data [1, 2], .rxErr .unexpectedEof, .rxErr .unexpectedEof] := by decide
+
+/-- the sender shipped on in mid-stream: transparent when flushed, loses chunk and port with a chunk
+in flight (the shutdown of the moved sender then announces more than arrives: the receiver's
+comparison with the announced size reports it) -/
+example : ((outputs exU (init exU) [.write [1], .flush, .moveTx, .write [2], .shutdown, .read 4 0, .read 4 0, .read 4 0]).map (·.2)) =
+    [.wrote 1, .done, .none, .wrote 1, .done, .data [1], .data [2], .data []] := by decide
+example : ((outputs exU (init exU) [.write [1], .moveTx, .write [2], .shutdown, .read 4 0]).map (·.2)) =
+    [.wrote 1, .none, .txErr .brokenPipe, .done, .rxErr .unexpectedEof] := by decide
 
 end Examples
 
